@@ -134,6 +134,38 @@ def compare_omits(ctx, cases, impl, variant):
                       {"kind": "failing-input", "op": line, "impl": a, "expected": "REFUSED", "variant": variant}, True)
 
 
+def memcheck_pass(ctx):
+    """refusal paths under valgrind memcheck on the uninstrumented build: a verdict computed from an uninitialised
+    local (stale key, stale length, stale status) is reported even when the garbage happens to give the right answer"""
+    import shutil, subprocess, threading
+    if not shutil.which("valgrind"):
+        ctx.notes.append("valgrind not available: memcheck pass skipped"); return
+    exe, log = core.build_harness("C16", "fast")
+    if exe is None:
+        ctx.notes.append("fast harness does not build: memcheck pass skipped"); return
+    body = hexs(ctx.rng.bytes(21))
+    ops = ["env 1.2 3 pub " + body, "env 1 2 pub " + body, "env 7.8 9 pub " + body, "envseq 1.2 2 3 " + body, "signenvseq 2.3 3 1 " + body,
+           "lowseq env 1.2 2 3 " + body, "lowseq signenv 1.2 2 3 " + body, "lowseq env 8.7 7 9 " + body,
+           "signenv 1 2.3 1 pub 1 " + body, "enc 1 " + body, "sign0 empty " + body, "sign0 absent " + body, "sign0 junk " + body]
+    ops += ["omit %s %s %d %s" % (k, p, n, body) for k in ("sign", "env", "enc", "signenv") for (p, n) in (("1.0", 0), ("1.0", 1), ("1.0", 2), ("1.0", 4), ("1.0.1", 0), ("1.0.1.0", 1), ("1.0.2", 0))]
+    shards = [ops[i::4] for i in range(4)]
+    outs = [None] * 4
+    def work(i):
+        p = subprocess.run(["valgrind", "-q", "--error-exitcode=9", exe], input=("\n".join(shards[i]) + "\n").encode(), stdout=subprocess.PIPE, stderr=subprocess.PIPE, timeout=900)
+        outs[i] = (p.returncode, p.stderr.decode("utf-8", "replace"))
+    ths = [threading.Thread(target=work, args=(i,)) for i in range(4)]
+    [t.start() for t in ths]; [t.join() for t in ths]
+    ctx.cov["evaluations"] += len(ops); ctx.count("op:memcheck", len(ops))
+    bad = [(i, o) for i, o in enumerate(outs) if o and o[0] != 0]
+    if bad:
+        i, (rc, err) = bad[0]
+        lines = [l for l in err.splitlines() if "==" in l][:14]
+        ctx.violation("memcheck:refusal-paths", "valgrind memcheck reports an error on a refusal path of the CMS interfaces (uninstrumented build): " + " / ".join(l.split("== ", 1)[-1] for l in lines)[:700],
+                      {"kind": "failing-input", "ops": shards[i], "stderr": err[-3000:], "how": "valgrind -q --error-exitcode=9 build/h_C16_fast < ops"}, True)
+    else:
+        ctx.cell("memcheck:refusal-paths:clean")
+
+
 def legacy_key(line):
     w = line.split()
     if w[0] == "sign":
@@ -223,6 +255,8 @@ def run(ctx):
             impl, err = core.run_lines(exe, lines, shards=shards)
             mod, _ = core.run_lines(model, lines, shards=shards)
             compare(ctx, group, impl, mod, v)
+        if v == "asan":
+            memcheck_pass(ctx)
         omits = gen_omits(ctx)
         impl, err = core.run_lines(exe, [c[0] for c in omits])
         compare_omits(ctx, omits, impl, v)
